@@ -212,6 +212,28 @@ def history_job(args):
                          % (name, order[bad[0]], label), {"layer": "a", "fn": name, "seq": label}))
         else:
             nontrivial += 1
+    # (a2b) a second protein with pi-helical (i -> i+5) hydrogen bonds that come and go between frames (1am7, frames of the
+    # repository's 51-frame trajectory): the secondary-structure / hydrogen-bond functions on every ordered pair of 6 frames
+    if name in ("dssp", "kabsch_sander", "wernet_nilsson", "baker_hubbard(per frame)"):
+        try:
+            import mdtraj as md
+            alt = md.load(os.path.join(repo, "tests/data/1am7_corrected.xtc"), top=os.path.join(repo, "tests/data/1am7_protein.pdb"))[[0, 5, 9, 20, 35, 50]]
+        except Exception:  # noqa  (test data not there: layer skipped)
+            alt = None
+        if alt is not None:
+            fn_alt = functions(alt)[name]
+            alone_alt = [_b(fn_alt(alt[k])[0]) for k in range(alt.n_frames)]
+            for seq in itertools.permutations(range(alt.n_frames), 2):
+                n += 1
+                res = fn_alt(alt[list(seq)])
+                bad = [i for i in range(2) if len(res) != 2 or _b(res[i]) != alone_alt[seq[i]]]
+                if bad:
+                    viol.append(("history|%s|frame-depends-on-predecessors" % name,
+                                 "%s: frame %d of 1am7 computed at position %d of sequence %s differs from the frame computed alone"
+                                 % (name, seq[bad[0]], bad[0], list(seq)), {"layer": "a", "fn": name, "seq": ["1am7"] + list(seq)}))
+                    break
+            else:
+                nontrivial += 1
     # (a3) block boundaries: 1100 frames (a 9-residue fragment of the 20 models, tiled with a small drift, cell changing
     # shape every frame) evaluated in ONE call versus in chunks of 137 frames: code that processes frames in blocks
     # (1024, 512, 256 ...) and mis-advances a pointer at a block boundary gives other numbers for the late frames
